@@ -1,26 +1,877 @@
-//! C21: not implemented yet.
+//! C21: reading any lock file never crashes.
+//!
+//! Inputs (all a pure function of seed/shard/index):
+//!  * `source` strings: short strings, known prefixes followed by garbage, token soups over the
+//!    separators of the lock format, valid source strings with character edits / truncation,
+//!    multi-byte characters placed at the byte offsets the parsers slice at;
+//!  * dependency-line strings of the same flavours;
+//!  * whole lock files: generated ones (C20 generator) and the Forc.lock files of /repo, mutated at
+//!    byte, character, token, line and string-literal level.
+//! Every input is driven through the real `Lock::from_path(..)` + `.to_graph()` (source and
+//! dependency-line strings are embedded, TOML-escaped, in a small lock file) and source strings
+//! additionally through `source::Pinned::from_str`, under `common::catch`.
+//! Oracle: the call returns (Ok or Err). A panic is a violation whose signature is the call site:
+//! crate-relative file + the text of the source line that panicked + the class of the message
+//! (no line numbers, offsets or input fragments, so it is stable across seeds and edits elsewhere).
+use crate::c20;
 use crate::common::*;
 use crate::{Plan, Prop};
+use forc_pkg::{source, Lock};
+use rand::rngs::StdRng;
+use rand::Rng;
+use serde_json::{json, Value};
+use std::collections::{BTreeSet, HashMap};
+use std::path::{Path, PathBuf};
+use std::str::FromStr;
 
 pub static META: PropertyMeta = PropertyMeta {
     id: "C21",
     level: "exploration",
-    rule: "not implemented",
-    assumptions: &[],
-    floor_evaluations: 1,
-    floor_nontrivial: 2,
-    required_counters: &[],
+    rule: "random/mutated source strings, dependency lines and lock files (generated and /repo corpus); each is read with Lock::from_path + to_graph (and source strings with source::Pinned::from_str); non-trivial = the input got past TOML parsing so that the source / dependency-line parsers ran on it (or was handed to from_str directly); distinct = hash of the input bytes",
+    assumptions: &["a panic is observed through std::panic::catch_unwind (the harness is built with panic=unwind); aborts and stack overflows end the shard and are reported as inconclusive with the input in flight"],
+    floor_evaluations: 5000,
+    floor_nontrivial: 2000,
+    required_counters: &["inputs_source_string", "inputs_dep_line", "inputs_lock_generated", "inputs_lock_corpus", "inputs_non_ascii", "result_ok_graph", "result_err_toml", "result_err_source", "result_err_dep_line", "from_str_ok", "from_str_err"],
 };
 
 pub static PROP: Prop = Prop {
     meta: &META,
-    plan: |_t| Plan { nshards: 1, budget_s: 1.0, mem_gib: 0 },
-    shard: |_ctx| {
-        let mut r = ShardResult::default();
-        r.harness_fault = Some("not implemented".into());
-        r
-    },
-    replay: crate::no_replay,
+    plan: |t| Plan { nshards: t.pick(8, 16), budget_s: t.pick(15.0, 200.0), mem_gib: 4 },
+    shard,
+    replay,
     extra: crate::no_extra,
     subcommand: crate::no_subcommand,
 };
+
+// ------------------------------------------------------------------------------------------
+// Call-site signatures
+
+fn message_class(msg: &str) -> String {
+    let m = msg;
+    if m.contains("is not a char boundary") {
+        "str-slice-not-char-boundary".into()
+    } else if m.contains("out of bounds of") || m.contains("out of range for") {
+        "slice-out-of-bounds".into()
+    } else if m.contains("begin <= end") || m.contains("slice index starts at") {
+        "slice-begin-after-end".into()
+    } else if m.starts_with("attempt to ") && m.contains("overflow") {
+        "arithmetic-overflow".into()
+    } else if m.contains("Option::unwrap()") {
+        "unwrap-on-none".into()
+    } else if m.contains("Result::unwrap()") || m.contains("called `Result::") {
+        "unwrap-on-err".into()
+    } else if m.contains("index out of bounds") {
+        "index-out-of-bounds".into()
+    } else {
+        // generic: cut at the first quote/backtick/colon (input fragments follow those), no digits
+        let cut: String = m.chars().take_while(|c| !matches!(c, '`' | '"' | '\'' | ':')).take(60).filter(|c| !c.is_ascii_digit()).collect();
+        format!("other({})", cut.trim())
+    }
+}
+
+fn rel_file(file: &str) -> String {
+    let f = file.strip_prefix(&format!("{REPO}/")).unwrap_or(file);
+    if let Some(p) = f.find("/registry/src/") {
+        // <cargo home>/registry/src/<index>/<crate-version>/...
+        let rest = &f[p + "/registry/src/".len()..];
+        return rest.split_once('/').map(|x| x.1.to_string()).unwrap_or_else(|| rest.to_string());
+    }
+    // scratch worktrees used for the deliberate-break experiments
+    for marker in ["/forc-pkg/", "/forc-util/"] {
+        if let Some(p) = f.find(marker) {
+            if f.starts_with('/') {
+                return f[p + 1..].to_string();
+            }
+        }
+    }
+    f.to_string()
+}
+
+fn source_line(file: &str, line: usize) -> String {
+    thread_local! { static CACHE: std::cell::RefCell<HashMap<String, Option<Vec<String>>>> = std::cell::RefCell::new(HashMap::new()); }
+    CACHE.with(|c| {
+        let mut c = c.borrow_mut();
+        let lines = c.entry(file.to_string()).or_insert_with(|| std::fs::read_to_string(file).ok().map(|s| s.lines().map(|l| l.split_whitespace().collect::<Vec<_>>().join(" ")).collect()));
+        match lines {
+            Some(v) if line >= 1 && line <= v.len() => v[line - 1].clone(),
+            _ => "<source line unavailable>".to_string(),
+        }
+    })
+}
+
+/// `panic@<file> [<source line>]: <message class>`
+pub fn site_signature(loc: &str, msg: &str) -> String {
+    let (file, line) = match loc.rsplit_once(':') {
+        Some((f, l)) => (f, l.parse::<usize>().unwrap_or(0)),
+        None => (loc, 0),
+    };
+    format!("panic@{} [{}]: {}", rel_file(file), source_line(file, line), message_class(msg))
+}
+
+// ------------------------------------------------------------------------------------------
+// Fuzz strings
+
+const MULTI_BYTE: &[&str] = &["é", "ß", "ñ", "€", "日", "本", "𝔘", "🦀", "e\u{301}", "\u{200b}", "\u{feff}", "\u{a0}", "\u{2028}"];
+const SRC_PREFIXES: &[&str] = &["git+", "path+", "ipfs+", "registry+", "member", "root", "git", "path", "ipfs", "registry", " git+", "path+from-root-", "git+https://", "registry+std?", "GIT+", "regist", "registry", "registr+"];
+const SRC_TOKENS: &[&str] = &[
+    "git+", "path+", "ipfs+", "registry+", "member", "root", "?", "#", "!", "=", "+", "branch=", "tag=", "rev", "default-branch", "from-root-", " ", "(", ")", "/", ":", "https://github.com/FuelLabs/sway", "std", "1.0.0", "0.1.0-rc.1+b", "v", "??", "##", "!!",
+    "\t", "\n", "0x", "-", ".", "@",
+];
+
+fn pick<'a>(rng: &mut StdRng, xs: &[&'a str]) -> &'a str {
+    xs[rng.gen_range(0..xs.len())]
+}
+
+fn rand_char(rng: &mut StdRng) -> String {
+    match rng.gen_range(0..10) {
+        0..=3 => (*choose(rng, b"abcxyzABZ019") as char).to_string(),
+        4..=6 => (*choose(rng, b"?#!+=()[]\"'\\ /:.,-_@%&*~^`{}|<>$;") as char).to_string(),
+        7 => (*choose(rng, b"\t\n\r\0\x7f\x1b") as char).to_string(),
+        _ => choose(rng, MULTI_BYTE).to_string(),
+    }
+}
+
+fn rand_string(rng: &mut StdRng, max: usize) -> String {
+    let n = rng.gen_range(0..=max);
+    (0..n).map(|_| rand_char(rng)).collect()
+}
+
+fn valid_source_string(rng: &mut StdRng) -> String {
+    let kind = rng.gen_range(0..5);
+    let m = c20::gen_source(rng, kind);
+    match c20::build_source("std", &m) {
+        Ok(p) => p.to_string(),
+        Err(_) => "member".to_string(),
+    }
+}
+
+fn dyn_token(rng: &mut StdRng) -> String {
+    match rng.gen_range(0..9) {
+        0 => c20::gen_commit(rng),
+        1 => c20::gen_cid(rng, false).0,
+        2 => c20::gen_cid(rng, true).0,
+        3 => format!("{:016X}", rng.gen::<u64>()),
+        4 => rand_string(rng, 5),
+        5 => choose(rng, MULTI_BYTE).to_string(),
+        6 => valid_source_string(rng),
+        _ => choose(rng, SRC_TOKENS).to_string(),
+    }
+}
+
+fn token_soup(rng: &mut StdRng, static_tokens: &[&str], max: usize) -> String {
+    let n = rng.gen_range(1..=max);
+    let mut s = String::new();
+    for _ in 0..n {
+        if rng.gen_bool(0.65) {
+            s.push_str(pick(rng, static_tokens));
+        } else {
+            s.push_str(&dyn_token(rng));
+        }
+    }
+    s
+}
+
+/// Character-level edits of a string.
+fn edit_chars(rng: &mut StdRng, s: &str, delims: &[char]) -> String {
+    let mut cs: Vec<String> = s.chars().map(|c| c.to_string()).collect();
+    let k = rng.gen_range(1..=3);
+    for _ in 0..k {
+        let len = cs.len();
+        match rng.gen_range(0..9) {
+            0 if len > 0 => {
+                cs.remove(rng.gen_range(0..len));
+            }
+            1 => cs.insert(rng.gen_range(0..=len), rand_char(rng)),
+            2 if len > 0 => {
+                let i = rng.gen_range(0..len);
+                cs[i] = rand_char(rng);
+            }
+            3 => cs.truncate(rng.gen_range(0..=len)),
+            4 if len > 0 => {
+                // remove every occurrence of one delimiter
+                let d = choose(rng, delims).to_string();
+                cs.retain(|c| *c != d);
+            }
+            5 if len > 0 => {
+                // duplicate or replace a delimiter
+                let d = choose(rng, delims).to_string();
+                if let Some(i) = cs.iter().position(|c| *c == d) {
+                    if rng.gen_bool(0.5) {
+                        cs.insert(i, d);
+                    } else {
+                        cs[i] = choose(rng, delims).to_string();
+                    }
+                }
+            }
+            6 => cs.insert(rng.gen_range(0..=len), choose(rng, MULTI_BYTE).to_string()),
+            7 if len > 1 => {
+                let i = rng.gen_range(0..len - 1);
+                cs.swap(i, i + 1);
+            }
+            8 if len > 0 => {
+                // drop a tail starting at a delimiter
+                let d = choose(rng, delims).to_string();
+                if let Some(i) = cs.iter().rposition(|c| *c == d) {
+                    cs.truncate(i + rng.gen_range(0..=1));
+                }
+            }
+            _ => {}
+        }
+    }
+    cs.concat()
+}
+
+pub fn gen_source_string(rng: &mut StdRng) -> String {
+    match rng.gen_range(0..10) {
+        0 => rand_string(rng, 12),
+        1 => {
+            let p = choose(rng, SRC_PREFIXES).to_string();
+            let tail = if rng.gen_bool(0.5) { rand_string(rng, 10) } else { token_soup(rng, SRC_TOKENS, 5) };
+            format!("{p}{tail}")
+        }
+        2 => token_soup(rng, SRC_TOKENS, 8),
+        3 | 4 => {
+            let v = valid_source_string(rng);
+            edit_chars(rng, &v, &['?', '#', '!', '+', '=', '-'])
+        }
+        5 => {
+            // multi-byte character straddling one of the byte offsets the parsers slice at
+            let k = rng.gen_range(0..=12);
+            let pad: String = (0..k).map(|_| *choose(rng, b"abgitprh+?#") as char).collect();
+            let tail = if rng.gen_bool(0.5) { token_soup(rng, SRC_TOKENS, 4) } else { String::new() };
+            format!("{pad}{}{tail}", choose(rng, MULTI_BYTE))
+        }
+        6 => {
+            let v = valid_source_string(rng);
+            let cut = rng.gen_range(0..=v.len());
+            let mut cut = cut;
+            while !v.is_char_boundary(cut) {
+                cut -= 1;
+            }
+            v[..cut].to_string()
+        }
+        7 => {
+            // valid, possibly padded with white space
+            let v = valid_source_string(rng);
+            match rng.gen_range(0..4) {
+                0 => format!(" {v}"),
+                1 => format!("{v}\n"),
+                2 => format!("\t{v}  "),
+                _ => v,
+            }
+        }
+        8 => {
+            // well-formed skeletons with empty or garbage fields
+            let f = |rng: &mut StdRng| match rng.gen_range(0..4) {
+                0 => String::new(),
+                1 => rand_string(rng, 4),
+                _ => dyn_token(rng),
+            };
+            match rng.gen_range(0..4) {
+                0 => format!("registry+{}?{}#{}!{}", f(rng), f(rng), f(rng), f(rng)),
+                1 => format!("git+{}?{}#{}", f(rng), f(rng), f(rng)),
+                2 => format!("path+from-root-{}", f(rng)),
+                _ => format!("ipfs+{}", f(rng)),
+            }
+        }
+        _ => {
+            // two valid strings glued / nested
+            let a = valid_source_string(rng);
+            let b = valid_source_string(rng);
+            format!("{a}{}{b}", choose(rng, &["", " ", "?", "#", "!", "+"]))
+        }
+    }
+}
+
+const DEP_TOKENS: &[&str] = &["(", ")", " ", "  ", "()", "dep_pkg", "other_pkg", "std", "alias", "(alias)", "(alias) ", " (", ") ", "0x", "\t", "\n", "path+from-root-0000000000000001", "member"];
+
+fn salt_token(rng: &mut StdRng) -> String {
+    let mut b = [0u8; 32];
+    rng.fill(&mut b);
+    match rng.gen_range(0..5) {
+        0 => "0".repeat(64),
+        1 => format!("0x{}", hex::encode(b)),
+        2 => hex::encode(&b[..rng.gen_range(0..32)]),
+        3 => hex::encode(b).to_uppercase(),
+        _ => hex::encode(b),
+    }
+}
+
+fn valid_dep_line(rng: &mut StdRng) -> String {
+    let mut s = String::new();
+    if rng.gen_bool(0.4) {
+        s.push_str(&format!("({}) ", choose(rng, &["alias", "a", "std2", "x-y"])));
+    }
+    s.push_str(pick(rng, &["dep_pkg", "dep_pkg", "other_pkg", "twin", "nope"]));
+    if rng.gen_bool(0.4) {
+        s.push(' ');
+        s.push_str(&if rng.gen_bool(0.5) { "path+from-root-0000000000000001".to_string() } else { valid_source_string(rng) });
+    }
+    if rng.gen_bool(0.4) {
+        s.push_str(&format!(" ({})", salt_token(rng)));
+    }
+    s
+}
+
+pub fn gen_dep_line(rng: &mut StdRng) -> String {
+    match rng.gen_range(0..8) {
+        0 => {
+            let n = rng.gen_range(0..=4);
+            (0..n).map(|_| choose(rng, &["(", ")", " ", "a", "b", "é", "日", "0", "𝔘"]).to_string()).collect()
+        }
+        1 | 2 => {
+            let n = rng.gen_range(1..=7);
+            let mut s = String::new();
+            for _ in 0..n {
+                match rng.gen_range(0..10) {
+                    0..=5 => s.push_str(pick(rng, DEP_TOKENS)),
+                    6 => s.push_str(&salt_token(rng)),
+                    7 => s.push_str(&gen_source_string(rng)),
+                    8 => s.push_str(pick(rng, MULTI_BYTE)),
+                    _ => s.push_str(&rand_string(rng, 4)),
+                }
+            }
+            s
+        }
+        3 | 4 | 5 => {
+            let v = valid_dep_line(rng);
+            edit_chars(rng, &v, &['(', ')', ' '])
+        }
+        6 => valid_dep_line(rng),
+        _ => rand_string(rng, 10),
+    }
+}
+
+fn toml_str(s: &str) -> String {
+    toml::Value::String(s.to_string()).to_string()
+}
+
+fn lock_with_source(src: &str) -> String {
+    format!("[[package]]\nname = \"pkg\"\nsource = {}\n", toml_str(src))
+}
+
+fn lock_with_dep_line(line: &str, contract: bool, rng: &mut StdRng) -> String {
+    let key = if contract { "contract-dependencies" } else { "dependencies" };
+    let twin = if rng.gen_bool(0.5) {
+        // two packages named `twin`: the disambiguated key path
+        "[[package]]\nname = \"twin\"\nsource = \"path+from-root-0000000000000001\"\n\n[[package]]\nname = \"twin\"\nsource = \"path+from-root-0000000000000002\"\n\n"
+    } else {
+        ""
+    };
+    format!(
+        "[[package]]\nname = \"dep_pkg\"\nsource = \"path+from-root-0000000000000001\"\n\n[[package]]\nname = \"other_pkg\"\nsource = \"member\"\n\n{twin}[[package]]\nname = \"root_pkg\"\nsource = \"member\"\n{key} = [{}]\n",
+        toml_str(line)
+    )
+}
+
+// ------------------------------------------------------------------------------------------
+// Lock file mutation
+
+fn load_corpus() -> Vec<Vec<u8>> {
+    let mut paths: Vec<PathBuf> = walkdir::WalkDir::new(REPO)
+        .into_iter()
+        .filter_entry(|e| {
+            let n = e.file_name().to_string_lossy();
+            !(n == "target" || n == ".git" || n == "node_modules")
+        })
+        .filter_map(|e| e.ok())
+        .filter(|e| e.file_type().is_file() && e.file_name() == "Forc.lock")
+        .map(|e| e.into_path())
+        .collect();
+    paths.sort();
+    let mut seen = BTreeSet::new();
+    let mut out = vec![];
+    for p in paths {
+        if let Ok(b) = std::fs::read(&p) {
+            if b.len() <= 64 * 1024 && seen.insert(hash64(&b)) {
+                out.push(b);
+            }
+        }
+    }
+    out
+}
+
+fn generated_lock(rng: &mut StdRng) -> Vec<u8> {
+    for _ in 0..5 {
+        let g = c20::gen_graph(rng);
+        if let Ok((graph, _)) = c20::build_graph(&g) {
+            if let Ok(t) = c20::lock_text(&graph) {
+                return t.into_bytes();
+            }
+        }
+    }
+    b"[[package]]\nname = \"a\"\nsource = \"member\"\n".to_vec()
+}
+
+/// spans (start, end) of the inside of double-quoted strings, by a simple scanner
+fn string_spans(b: &[u8]) -> Vec<(usize, usize)> {
+    let mut v = vec![];
+    let mut i = 0;
+    while i < b.len() {
+        if b[i] == b'"' {
+            let start = i + 1;
+            let mut j = start;
+            while j < b.len() && b[j] != b'"' && b[j] != b'\n' {
+                if b[j] == b'\\' {
+                    j += 1;
+                }
+                j += 1;
+            }
+            if j < b.len() && b[j] == b'"' {
+                v.push((start, j));
+            }
+            i = j + 1;
+        } else {
+            i += 1;
+        }
+    }
+    v
+}
+
+fn line_spans(b: &[u8]) -> Vec<(usize, usize)> {
+    let mut v = vec![];
+    let mut s = 0;
+    for (i, &c) in b.iter().enumerate() {
+        if c == b'\n' {
+            v.push((s, i + 1));
+            s = i + 1;
+        }
+    }
+    if s < b.len() {
+        v.push((s, b.len()));
+    }
+    v
+}
+
+fn token_spans(b: &[u8]) -> Vec<(usize, usize)> {
+    // maximal runs of [A-Za-z0-9_+.-] and single punctuation bytes; white space separates
+    let mut v = vec![];
+    let mut i = 0;
+    let word = |c: u8| c.is_ascii_alphanumeric() || matches!(c, b'_' | b'+' | b'.' | b'-') || c >= 0x80;
+    while i < b.len() {
+        if b[i].is_ascii_whitespace() {
+            i += 1;
+        } else if word(b[i]) {
+            let s = i;
+            while i < b.len() && word(b[i]) {
+                i += 1;
+            }
+            v.push((s, i));
+        } else {
+            v.push((i, i + 1));
+            i += 1;
+        }
+    }
+    v
+}
+
+fn splice(b: &mut Vec<u8>, span: (usize, usize), with: &[u8]) {
+    b.splice(span.0..span.1, with.iter().copied());
+}
+
+fn mutate_lock(rng: &mut StdRng, base: &[u8], other: &[u8]) -> (Vec<u8>, &'static str) {
+    let mut b = base.to_vec();
+    let k = match rng.gen_range(0..10) {
+        0..=5 => 1,
+        6..=8 => 2,
+        _ => rng.gen_range(3..=6),
+    };
+    let mut first = "none";
+    for step in 0..k {
+        let len = b.len();
+        let op = rng.gen_range(0..16);
+        let name: &'static str = match op {
+            0 | 1 | 2 | 3 => {
+                // replace the inside of a string literal by a fuzz string (keeps the TOML valid)
+                let spans = string_spans(&b);
+                if !spans.is_empty() {
+                    let sp = *choose(rng, &spans);
+                    let line_start = b[..sp.0].iter().rposition(|&c| c == b'\n').map(|p| p + 1).unwrap_or(0);
+                    let is_source = b[line_start..sp.0].starts_with(b"source");
+                    let is_name = b[line_start..sp.0].starts_with(b"name");
+                    let f = if is_source {
+                        gen_source_string(rng)
+                    } else if is_name {
+                        if rng.gen_bool(0.5) { rand_string(rng, 8) } else { "dep_pkg".to_string() }
+                    } else if rng.gen_bool(0.8) {
+                        gen_dep_line(rng)
+                    } else {
+                        gen_source_string(rng)
+                    };
+                    let lit = toml_str(&f);
+                    // replace including the quotes (toml_str may choose '...' or """ quoting)
+                    splice(&mut b, (sp.0 - 1, sp.1 + 1), lit.as_bytes());
+                }
+                "string-literal"
+            }
+            4 => {
+                // character edits inside a string literal, unescaped
+                let spans = string_spans(&b);
+                if !spans.is_empty() {
+                    let sp = *choose(rng, &spans);
+                    if let Ok(inner) = std::str::from_utf8(&b[sp.0..sp.1]) {
+                        let e = edit_chars(rng, inner, &['?', '#', '!', '+', '=', '(', ')', ' ']);
+                        splice(&mut b, sp, e.as_bytes());
+                    }
+                }
+                "string-chars"
+            }
+            5 if len > 0 => {
+                let i = rng.gen_range(0..len);
+                b[i] = rng.gen();
+                "byte-replace"
+            }
+            6 => {
+                let i = rng.gen_range(0..=len);
+                b.insert(i, rng.gen());
+                "byte-insert"
+            }
+            7 if len > 0 => {
+                let i = rng.gen_range(0..len);
+                let n = rng.gen_range(1..=8.min(len - i));
+                b.drain(i..i + n);
+                "byte-delete"
+            }
+            8 => {
+                let i = rng.gen_range(0..=len);
+                let s = rand_char(rng);
+                b.splice(i..i, s.bytes());
+                "char-insert"
+            }
+            9 => {
+                let ls = line_spans(&b);
+                if ls.len() >= 2 {
+                    let a = *choose(rng, &ls);
+                    match rng.gen_range(0..3) {
+                        0 => {
+                            b.drain(a.0..a.1);
+                        }
+                        1 => {
+                            let l = b[a.0..a.1].to_vec();
+                            b.splice(a.0..a.0, l);
+                        }
+                        _ => {
+                            let c = *choose(rng, &ls);
+                            let la = b[a.0..a.1].to_vec();
+                            let lc = b[c.0..c.1].to_vec();
+                            if a.0 < c.0 {
+                                splice(&mut b, c, &la);
+                                splice(&mut b, a, &lc);
+                            } else if c.0 < a.0 {
+                                splice(&mut b, a, &lc);
+                                splice(&mut b, c, &la);
+                            }
+                        }
+                    }
+                }
+                "line"
+            }
+            10 => {
+                let ts = token_spans(&b);
+                if ts.len() >= 2 {
+                    let a = *choose(rng, &ts);
+                    match rng.gen_range(0..4) {
+                        0 => {
+                            b.drain(a.0..a.1);
+                        }
+                        1 => {
+                            let t = b[a.0..a.1].to_vec();
+                            b.splice(a.0..a.0, t);
+                        }
+                        2 => {
+                            let c = *choose(rng, &ts);
+                            let t = b[c.0..c.1].to_vec();
+                            splice(&mut b, a, &t);
+                        }
+                        _ => {
+                            let t = choose(rng, &["[", "]", "[[", "]]", "\"", "'", "=", ",", "{", "}", "#", "\"\"\"", "package", "source", "dependencies", "contract-dependencies", "version", "name", "true", "1", "1.0.0", "\\"]).as_bytes().to_vec();
+                            splice(&mut b, a, &t);
+                        }
+                    }
+                }
+                "token"
+            }
+            11 => {
+                // cross-file splice at line boundaries
+                let la = line_spans(&b);
+                let lo = line_spans(other);
+                if !la.is_empty() && !lo.is_empty() {
+                    let cut_a = choose(rng, &la).0;
+                    let cut_o = choose(rng, &lo).0;
+                    b.truncate(cut_a);
+                    b.extend_from_slice(&other[cut_o..]);
+                }
+                "cross-splice"
+            }
+            12 => {
+                b.truncate(rng.gen_range(0..=len));
+                "truncate"
+            }
+            13 if len > 0 => {
+                let i = rng.gen_range(0..len);
+                let n = rng.gen_range(1..=64.min(len - i));
+                let d = b[i..i + n].to_vec();
+                b.splice(i..i, d);
+                "range-duplicate"
+            }
+            14 => {
+                // add / change a version field or an unknown field
+                let ls = line_spans(&b);
+                if !ls.is_empty() {
+                    let at = choose(rng, &ls).0;
+                    let l = match rng.gen_range(0..5) {
+                        0 => format!("version = {}\n", toml_str(&rand_string(rng, 8))),
+                        1 => "version = \"1.2.3-rc.1+b\"\n".to_string(),
+                        2 => format!("source = {}\n", toml_str(&gen_source_string(rng))),
+                        3 => format!("dependencies = [{}, {}]\n", toml_str(&gen_dep_line(rng)), toml_str(&gen_dep_line(rng))),
+                        _ => format!("contract-dependencies = [{}]\n", toml_str(&gen_dep_line(rng))),
+                    };
+                    b.splice(at..at, l.bytes());
+                }
+                "field"
+            }
+            _ => {
+                // deep nesting / long runs (bounded)
+                let i = rng.gen_range(0..=len);
+                let unit = *choose(rng, &["[", "{", "(", "\"", "a = [", "é"]);
+                let n = rng.gen_range(2..=64);
+                b.splice(i..i, unit.repeat(n).bytes());
+                "run"
+            }
+        };
+        if step == 0 {
+            first = name;
+        }
+    }
+    (b, first)
+}
+
+// ------------------------------------------------------------------------------------------
+// Driver
+
+struct Run {
+    scratch: c20::Scratch,
+    seen_sigs: BTreeSet<String>,
+}
+
+fn classify_err(e: &str) -> &'static str {
+    if e.starts_with("failed to read") {
+        "result_err_read"
+    } else if e.starts_with("failed to parse lock file") {
+        "result_err_toml"
+    } else if e.starts_with("invalid 'source' entry") {
+        "result_err_source"
+    } else if e.starts_with("failed to parse dependency") {
+        if e.contains("invalid salt") {
+            "result_err_dep_line_salt"
+        } else {
+            "result_err_dep_line_other"
+        }
+    } else if e.starts_with("found dep") {
+        "result_err_dep_without_node"
+    } else {
+        "result_err_unclassified"
+    }
+}
+
+fn report_panic(run: &mut Run, res: &mut ShardResult, what: &str, loc: &str, msg: &str, case: Value) {
+    res.count("panics_observed");
+    let sig = site_signature(loc, msg);
+    if run.seen_sigs.insert(sig.clone()) {
+        let m: String = msg.chars().take(200).collect();
+        res.violation(sig, format!("{what} panicked at {loc}: {m}"), case);
+    }
+}
+
+/// Read a lock file's bytes through the real loader. Returns true when the TOML layer was passed.
+fn drive_lock(run: &mut Run, res: &mut ShardResult, bytes: &[u8], case: Value) -> (bool, &'static str) {
+    if let Err(e) = run.scratch.put(bytes) {
+        res.inconclusive(e);
+        return (false, "harness-io");
+    }
+    let path = run.scratch.path.clone();
+    let p: &Path = &path;
+    let out = catch(std::panic::AssertUnwindSafe(|| match Lock::from_path(p) {
+        Err(e) => (false, Err(e.to_string())),
+        Ok(l) => (true, l.to_graph().map(|g| (g.node_count(), g.edge_count())).map_err(|e| e.to_string())),
+    }));
+    match out {
+        Err((loc, msg)) => {
+            report_panic(run, res, "Lock::from_path + to_graph", &loc, &msg, case);
+            (true, "panic")
+        }
+        Ok((past_toml, Ok((n, m)))) => {
+            res.count("result_ok_graph");
+            res.max("max_ok_nodes", n as u64);
+            res.max("max_ok_edges", m as u64);
+            (past_toml, "result_ok_graph")
+        }
+        Ok((past_toml, Err(e))) => {
+            let k = classify_err(&e);
+            res.count(k);
+            if k.starts_with("result_err_dep_line") {
+                res.count("result_err_dep_line");
+            }
+            if k == "result_err_unclassified" {
+                res.sample(json!({"unclassified_error": e}));
+            }
+            (past_toml, k)
+        }
+    }
+}
+
+fn drive_from_str(run: &mut Run, res: &mut ShardResult, s: &str, case: Value) {
+    let kind = |p: &source::Pinned| match p {
+        source::Pinned::Member(_) => "from_str_ok_member",
+        source::Pinned::Path(_) => "from_str_ok_path",
+        source::Pinned::Git(_) => "from_str_ok_git",
+        source::Pinned::Ipfs(_) => "from_str_ok_ipfs",
+        source::Pinned::Registry(_) => "from_str_ok_registry",
+    };
+    match catch(std::panic::AssertUnwindSafe(|| source::Pinned::from_str(s).map(|p| (kind(&p), p.to_string())))) {
+        Err((loc, msg)) => report_panic(run, res, "source::Pinned::from_str", &loc, &msg, case),
+        Ok(Ok((k, _printed))) => {
+            res.count("from_str_ok");
+            res.count(k);
+        }
+        Ok(Err(_)) => res.count("from_str_err"),
+    }
+}
+
+fn non_ascii(b: &[u8]) -> bool {
+    b.iter().any(|&c| c >= 0x80)
+}
+
+fn run_source(run: &mut Run, res: &mut ShardResult, s: &str) {
+    res.evaluations += 1;
+    res.count("inputs_source_string");
+    if non_ascii(s.as_bytes()) {
+        res.count("inputs_non_ascii");
+    }
+    res.note_nontrivial(hash64(s.as_bytes()));
+    let case = json!({"kind": "source", "text": s});
+    drive_from_str(run, res, s, case.clone());
+    let lock = lock_with_source(s);
+    let (_, class) = drive_lock(run, res, lock.as_bytes(), case);
+    if res.evaluations % 4096 == 1 {
+        res.sample(json!({"source_string": s, "result": class}));
+    }
+}
+
+fn run_dep_line(run: &mut Run, res: &mut ShardResult, line: &str, lock: &str) {
+    res.evaluations += 1;
+    res.count("inputs_dep_line");
+    if non_ascii(line.as_bytes()) {
+        res.count("inputs_non_ascii");
+    }
+    res.note_nontrivial(hash64(lock.as_bytes()));
+    let (_, class) = drive_lock(run, res, lock.as_bytes(), json!({"kind": "lock", "hex": hex::encode(lock.as_bytes()), "dep_line": line}));
+    if res.evaluations % 4096 == 2 {
+        res.sample(json!({"dependency_line": line, "result": class}));
+    }
+}
+
+fn run_lock(run: &mut Run, res: &mut ShardResult, bytes: &[u8]) {
+    res.evaluations += 1;
+    if non_ascii(bytes) {
+        res.count("inputs_non_ascii");
+    }
+    let (past_toml, class) = drive_lock(run, res, bytes, json!({"kind": "lock", "hex": hex::encode(bytes)}));
+    if past_toml {
+        res.note_nontrivial(hash64(bytes));
+        if res.evaluations % 4096 == 3 {
+            res.sample(json!({"lock_file": String::from_utf8_lossy(bytes).chars().take(600).collect::<String>(), "result": class}));
+        }
+    }
+}
+
+fn shard(ctx: &ShardCtx) -> ShardResult {
+    let mut res = ShardResult::default();
+    let scratch = match c20::Scratch::new(&ctx.work()) {
+        Ok(s) => s,
+        Err(e) => {
+            res.harness_fault = Some(e);
+            return res;
+        }
+    };
+    let mut run = Run { scratch, seen_sigs: BTreeSet::new() };
+    let corpus = load_corpus();
+    res.max("max_corpus_distinct_lock_files", corpus.len() as u64);
+    if corpus.is_empty() {
+        res.harness_fault = Some("no Forc.lock files found under /repo".into());
+        return res;
+    }
+    // the pristine corpus files themselves (shard 0): they must load
+    if ctx.shard == 0 {
+        for b in &corpus {
+            res.count("inputs_lock_corpus_pristine");
+            run_lock(&mut run, &mut res, b);
+        }
+    }
+    let mut i = 0u64;
+    let mut last_partial = std::time::Instant::now();
+    while ctx.time_left() {
+        let mut rng = ctx.rng(i);
+        if i % 64 == 0 {
+            journal_current(ctx, &format!("C21 seed={} shard={} index={} (and the following 63)", ctx.seed, ctx.shard, i));
+        }
+        match rng.gen_range(0..10) {
+            0..=2 => {
+                let s = gen_source_string(&mut rng);
+                run_source(&mut run, &mut res, &s);
+            }
+            3..=4 => {
+                let l = gen_dep_line(&mut rng);
+                let contract = rng.gen_bool(0.5);
+                let lock = lock_with_dep_line(&l, contract, &mut rng);
+                run_dep_line(&mut run, &mut res, &l, &lock);
+            }
+            5..=6 => {
+                let base = generated_lock(&mut rng);
+                let other = choose(&mut rng, &corpus).clone();
+                let (m, op) = mutate_lock(&mut rng, &base, &other);
+                res.count("inputs_lock_generated");
+                res.count(&format!("mut_{op}"));
+                run_lock(&mut run, &mut res, &m);
+            }
+            _ => {
+                let base = choose(&mut rng, &corpus).clone();
+                let other = if rng.gen_bool(0.5) { choose(&mut rng, &corpus).clone() } else { generated_lock(&mut rng) };
+                let (m, op) = mutate_lock(&mut rng, &base, &other);
+                res.count("inputs_lock_corpus");
+                res.count(&format!("mut_{op}"));
+                run_lock(&mut run, &mut res, &m);
+            }
+        }
+        i += 1;
+        if last_partial.elapsed().as_secs() >= 5 {
+            write_partial(ctx, &res);
+            last_partial = std::time::Instant::now();
+        }
+    }
+    res
+}
+
+fn replay(case: &Value) -> ShardResult {
+    let mut res = ShardResult::default();
+    let scratch = match c20::Scratch::new(&work_dir("C21").join("replay")) {
+        Ok(s) => s,
+        Err(e) => {
+            res.harness_fault = Some(e);
+            return res;
+        }
+    };
+    let mut run = Run { scratch, seen_sigs: BTreeSet::new() };
+    match case["kind"].as_str() {
+        Some("source") => {
+            let s = case["text"].as_str().unwrap_or("").to_string();
+            run_source(&mut run, &mut res, &s);
+        }
+        Some("lock") => match hex::decode(case["hex"].as_str().unwrap_or("")) {
+            Ok(b) => run_lock(&mut run, &mut res, &b),
+            Err(e) => res.harness_fault = Some(format!("cannot decode replay case: {e}")),
+        },
+        _ => res.harness_fault = Some("unknown replay case kind".into()),
+    }
+    res
+}
